@@ -151,7 +151,12 @@ func runService(t *testing.T, cli *clientv3.Client, k *kase) {
 	select {
 	case <-done:
 		impl["unregistered"] = true
-	case <-time.After(6 * time.Second):
+	// unregister() cancels the heartbeat loop and waits for it. If the lease happens to have lapsed at that moment the
+	// loop's select may take the expiry branch (both are ready), fail to re-register with the cancelled context and
+	// sleep one heartbeat interval (2 s) before it looks again — each time with probability 1/2. 6 s was reached on a
+	// loaded machine (thorough tier, extra lapses caused by starved keep-alives); 30 s is not (2^-15), a loop that
+	// never ends still is.
+	case <-time.After(30 * time.Second):
 		impl["unregistered"] = false
 	}
 	impl["key_gone"] = leaseOf() == 0
